@@ -107,13 +107,15 @@ def rand_mask(rng, E_block, symmetric=True):
     return M
 
 
-def offset_case(rng, *, hermitian=True, fmt=None, max_params=2, N=3, mode=None):
+def offset_case(rng, *, hermitian=True, fmt=None, max_params=2, N=3, mode=None, off=None):
     """One block whose levels have a large common offset and unit spacings (all float operations stay
     exact: differences are +-1, +-2). Exercises tolerance handling that is absolute in the library:
     a relative tolerance would treat these levels as degenerate."""
     fmt = fmt or rng.choice(["dense", "sparse", "dense", "sympy"])
     n = rng.randint(2, 4)
-    off = 2 ** rng.choice([20, 24, 30])
+    # 99999.5: unit gaps straddle 1e5, the window where a relative closeness test with rtol = 1e-5 taken from ONE of the
+    # two levels (numpy.isclose) is not symmetric
+    off = rng.choice([2 ** 20, 2 ** 24, 2 ** 30, Fr(199999, 2)]) if off is None else off
     levels = [rng.choice([0, 1, 2]) for _ in range(n)]
     if len(set(levels)) == 1:
         levels[0] = (levels[0] + 1) % 3
@@ -156,7 +158,7 @@ def degenerate_case(rng, *, hermitian=True, fmt="dense", pattern=(1, 0, 0), max_
     return dict(sub=sub, nparam=nparam, N=N, H=H, hermitian=hermitian, fully=(None if default_full else [0]), fmt=fmt)
 
 
-NSPECIAL = 10
+NSPECIAL = 12
 
 
 def special_case(rng, k, *, hermitian=True, N=3, max_params=2):
@@ -179,6 +181,10 @@ def special_case(rng, k, *, hermitian=True, N=3, max_params=2):
         return degenerate_case(rng, hermitian=hermitian, fmt="dense", pattern=(0, 1, 0), max_params=max_params, N=N, extra_block=True)
     if k == 7:
         return degenerate_case(rng, hermitian=hermitian, fmt="sympy", pattern=(1, 0, 1, 0), max_params=1, N=N, default_full=True)
+    if k == 10:
+        return offset_case(rng, hermitian=hermitian, fmt="dense", max_params=max_params, N=N, mode=0.5, off=Fr(199999, 2))
+    if k == 11:
+        return offset_case(rng, hermitian=hermitian, fmt="sparse", max_params=max_params, N=N, mode=0.1, off=Fr(199999, 2))
     if k == 8:
         return degenerate_case(rng, hermitian=hermitian, fmt="sparse", pattern=(0, 2, 0), max_params=max_params, N=N, default_full=True)
     return degenerate_case(rng, hermitian=hermitian, fmt="dense", pattern=(2, 1, 1), max_params=max_params, N=N, extra_block=True)
